@@ -178,7 +178,8 @@ Proof.
   destruct (loop s) eqn:L; auto.
   - right. right. left. exists until. split; [reflexivity|].
     specialize (C ILoopResume ltac:(simpl; tauto)). simpl in C. unfold do_loop_resume in C. rewrite L in C.
-    destruct (until =? now s) eqn:E; [discriminate|]. apply Z.eqb_neq in E. congruence.
+    destruct (until =? now s) eqn:E; [|apply Z.eqb_neq in E; congruence].
+    destruct (reacts_left s); [discriminate|]. destruct (phase_ s); discriminate.
   - right. right. right. right. exists until. split; [reflexivity|].
     specialize (C ILoopUnbusy ltac:(simpl; tauto)). simpl in C. unfold do_loop_unbusy in C. rewrite L in C.
     destruct (until =? now s) eqn:E; [discriminate|]. apply Z.eqb_neq in E. congruence.
@@ -405,14 +406,21 @@ Proof.
   repeat split; reflexivity.
 Qed.
 
+(* the resume event ends the pause; the phase is back to started when the event is raised, so a listener
+   that answers it by having Pause() called from another goroutine starts a new pause (reacts_left) *)
 Lemma loop_resume_effect c s s' o :
   step c s ILoopResume = Some (s', o) ->
   loop s = LSleeping (now s) /\ loop s' = LIdle /\ o = [OEvResume]
-  /\ (phase_ s = PPaused -> phase_ s' = PStarted).
+  /\ (phase_ s = PPaused ->
+      (reacts_left s = 0%nat /\ phase_ s' = PStarted /\ pause_tok s' = pause_tok s)
+      \/ (exists n, reacts_left s = S n /\ reacts_left s' = n /\ phase_ s' = PPaused /\ pause_tok s' = true)).
 Proof.
   simpl. unfold do_loop_resume. intro H. destruct (loop s) eqn:L; try discriminate.
-  destruct (until =? now s) eqn:E; [|discriminate]. apply Z.eqb_eq in E. subst. some_inv H. simpl.
-  repeat split; try reflexivity. intro P. now rewrite P.
+  destruct (until =? now s) eqn:E; [|discriminate]. apply Z.eqb_eq in E. subst.
+  destruct (reacts_left s) as [|n] eqn:ER.
+  - some_inv H. simpl. repeat split; try reflexivity. intro P. left. rewrite P. repeat split; reflexivity.
+  - destruct (phase_ s) eqn:EP; some_inv H; simpl; repeat split; try reflexivity; intro P; try discriminate.
+    right. exists n. repeat split; reflexivity.
 Qed.
 
 (* while the loop sleeps in a pause nothing but the resume can come from it: no batch, no
